@@ -32,6 +32,7 @@ def main (args : List String) : IO UInt32 := do
   | ["args"] => DrvArgs.main *> pure 0
   | ["entry"] => DrvEntry.main *> pure 0
   | ["paths"] => DrvPaths.main *> pure 0
+  | ["tcid"] => DrvPaths.mainIds *> pure 0
   | ["manifest"] => DrvManifest.main *> pure 0
   | ["stats"] => DrvStats.main *> pure 0
   | ["client"] => DrvClient.main *> pure 0
